@@ -521,6 +521,12 @@ impl CodegenContext {
             Token::Align { value, .. } => {
                 if let Some(pc) = self.try_current_target_pc() {
                     if let Some(align) = self.evaluate_expression_as_i64(value, true)? {
+                        if !(1..=0x10000).contains(&align) {
+                            return Err(Diagnostic::error()
+                                .with_message(format!("invalid alignment: {}", align))
+                                .with_labels(vec![value.span.to_label()])
+                                .into());
+                        }
                         let padding = (align - (pc.as_i64() % align)) as usize;
                         let mut bytes = Vec::new();
                         bytes.resize(padding, 0u8);
@@ -873,12 +879,13 @@ impl CodegenContext {
                             let target_pc = value as i64;
                             // If the current PC cannot be determined we'll just default to the target_pc. This will be fixed up later
                             // when the instruction is re-emitted.
-                            let cur_pc = (self
+                            let cur_pc = self
                                 .try_current_target_pc()
                                 .unwrap_or_else(|| target_pc.into())
-                                + 2)
-                            .as_i64();
-                            let mut offset = target_pc - cur_pc;
+                                .as_i64()
+                                .wrapping_add(2);
+                            // A distance that does not even fit in an i64 is certainly too far
+                            let mut offset = target_pc.checked_sub(cur_pc).unwrap_or(i64::MAX);
                             if (-128..=127).contains(&offset) {
                                 if offset < 0 {
                                     offset += 256;
@@ -1027,7 +1034,7 @@ impl CodegenContext {
             Token::ProgramCounterDefinition { value, .. } => {
                 if let Some(pc) = self.evaluate_expression_as_i64(value, true)? {
                     if let Some(seg) = self.try_current_segment_mut() {
-                        seg.set_pc(pc - seg.target_offset());
+                        seg.set_pc(pc.wrapping_sub(seg.target_offset()));
                     }
                 }
             }
